@@ -11,34 +11,74 @@ import (
 
 func init() { register("C09", ruleC09) }
 
-// addBeforeGo: every `go g(...)` in f is preceded, in its own block, by wg.Add(const 1) on the
-// WaitGroup it passes, so the counter can never be observed at zero while a spawn is pending.
+// addBeforeGo: every `go g(...)` in f is accounted for on the WaitGroup it passes before it starts:
+// wg.Add(1) earlier in its own block, or one wg.Add(len(xs)) that dominates a loop over xs spawning once
+// per element. A spawn with no Add before it at all is a violation; other arrangements are undecided.
 func addBeforeGo(c *Ctx, rule string, f, g *ssa.Function, wgArg int) int {
 	n := 0
+	tb := newTB(f)
 	for _, gs := range goSites(f, g) {
 		n++
 		wg := unwrap(gs.Call.Args[wgArg])
-		ok := false
-		for _, ins := range gs.Block().Instrs {
-			if ins == ssa.Instruction(gs) {
-				break
+		st, why := unknown, ""
+		var adds []*ssa.Call
+		eachInstr(f, func(i ssa.Instruction) {
+			if ci, isCall := i.(*ssa.Call); isCall && calleeName(ci) == "(*sync.WaitGroup).Add" && unwrap(ci.Call.Args[0]) == wg {
+				adds = append(adds, ci)
 			}
-			if ci, isCall := ins.(*ssa.Call); isCall && calleeName(ci) == "(*sync.WaitGroup).Add" && unwrap(ci.Call.Args[0]) == wg {
-				if k, isC := ci.Call.Args[1].(*ssa.Const); isC && k.Value != nil && k.Value.ExactString() == "1" {
-					ok = true
+		})
+		before := false
+		for _, a := range adds {
+			k, isC := a.Call.Args[1].(*ssa.Const)
+			one := isC && k.Value != nil && k.Value.ExactString() == "1"
+			switch {
+			case a.Block() == gs.Block() && instrIndex(a) < instrIndex(gs) && one:
+				st = holds
+			case a.Block() == gs.Block() && instrIndex(a) < instrIndex(gs):
+				before = true
+				why = "wg.Add(" + short(tb.T(a.Call.Args[1]).String()) + ") precedes the spawn"
+			case a.Block() != gs.Block() && a.Block().Dominates(gs.Block()):
+				before = true
+				// Add(len(xs)) ahead of a loop that spawns once per element of xs
+				entry := loopBodyEntry(gs.Block())
+				amount := tb.T(a.Call.Args[1])
+				if entry != nil && !inLoop(a.Block()) && amount.isCall("builtin:len") && pathCond(tb, entry, gs.Block()).Op == "true" {
+					hdr := enclosingLoopHeader(gs.Block())
+					if ifi, ok := hdr.Instrs[len(hdr.Instrs)-1].(*ssa.If); ok {
+						ct := tb.T(ifi.Cond)
+						if ct.isBin("<") && ct.Args[0].Op == "rangeidx" && ct.Args[1].String() == amount.String() && len(goSitesInLoop(f, hdr)) == 1 {
+							st = holds
+						}
+					}
+				}
+				if st != holds {
+					why = "wg.Add(" + short(amount.String()) + ") dominates the spawn; its amount is not matched to the number of spawns"
 				}
 			}
 		}
-		c.check(ok, rule, fmt.Sprintf("%s: wg.Add(1) before go %s", fname(f), g.Name()), gs.Pos(), "Add(1) precedes the go statement in the same block", "a goroutine is spawned without a preceding wg.Add(1) in the same block: Wait may return (and the channel be closed) while it is still running")
+		if st != holds && !before {
+			st, why = broken, "a goroutine is spawned without a wg.Add before it on its path: Wait may return (and the channel be closed) while it is still running"
+		}
+		c.judge(st, rule, fmt.Sprintf("%s: wg.Add before go %s", fname(f), g.Name()), gs.Pos(), "the spawn is counted on the WaitGroup before it starts", why)
 	}
 	return n
 }
 
+func goSitesInLoop(f *ssa.Function, hdr *ssa.BasicBlock) []*ssa.Go {
+	var out []*ssa.Go
+	eachInstr(f, func(i ssa.Instruction) {
+		if g, ok := i.(*ssa.Go); ok && g.Block() != hdr && hdr.Dominates(g.Block()) && reaches(g.Block(), hdr) {
+			out = append(out, g)
+		}
+	})
+	return out
+}
+
 func ruleC09(c *Ctx) {
 	c.Decided = []string{
-		"CHANLIFE: construct channel: sends only in recurseLigate, every spawn preceded by wg.Add(1), defer wg.Done() first in recurseLigate, collector started before wg.Wait() which precedes close(c) which precedes the receive of the result, which is returned; result channel: one send then one close on the !more path only",
-		"TERM-LIGATE: closure test Fwd==Rev sends Fwd+Seq; forward extension under seed.Rev==new.Fwd builds {seed.Seq+seed.Rev+new.Seq, seed.Fwd, new.Rev}; flipped extension under seed.Rev==RC(new.Rev) and seed.Rev!=RC(seed.Rev) builds {seed.Seq+seed.Rev+RC(new.Seq), seed.Fwd, RC(new.Fwd)}; the two extensions are tested independently for every pool fragment",
-		"TERM-DEDUP: collector keys constructs by seqhash.Hash(x,\"DNA\",true,true), keeps a construct iff no earlier key is equal, returns Part{x, Circular:true}",
+		"CHANLIFE: construct channel: sends only in the worker, every spawn counted on the WaitGroup before it starts, defer wg.Done() first in the worker, collector started before wg.Wait() which precedes close(c) which precedes the receive of the result, which is returned; result channel: one send then one close after the input is exhausted; every fragment seeds a worker unconditionally",
+		"TERM-LIGATE: closure test Fwd==Rev sends Fwd+Seq; forward extension under seed.Rev==new.Fwd builds {seed.Seq+seed.Rev+new.Seq, seed.Fwd, new.Rev}; flipped extension under seed.Rev==RC(new.Rev) and seed.Rev!=RC(seed.Rev) builds {seed.Seq+seed.Rev+RC(new.Seq), seed.Fwd, RC(new.Fwd)}; the two extensions are tested independently for every pool fragment (helpers are inlined)",
+		"TERM-DEDUP: collector keys constructs by seqhash.Hash(x,\"DNA\",true,true), keeps a construct iff no earlier key is equal (flag scan reset per construct, or a seen-set), returns Part{x, Circular:true}",
 		"NOSHARED: goroutine bodies use no package-level variable and do not store through the shared fragment list",
 		"WRAPPERS: GoldenGate cuts every input with directional=true in input order, propagates the lookup error, passes all fragments to CircularLigate",
 		"VARIANT: each recursive spawn carries a decreasing measure (fails today: known findings)",
@@ -52,263 +92,45 @@ func ruleC09(c *Ctx) {
 	c.floor("WRAPPERS", 2)
 	c.floor("VARIANT", 2)
 	w := c.W
-	rl, gc, cl, gg := w.fn("clone", "recurseLigate"), w.fn("clone", "getConstructs"), w.fn("clone", "CircularLigate"), w.fn("clone", "GoldenGate")
+	cl, gg := w.fn("clone", "CircularLigate"), w.fn("clone", "GoldenGate")
 	if cl == nil || gg == nil {
 		c.missing("CHANLIFE", "clone.CircularLigate/GoldenGate", "exported ligation functions")
 		return
 	}
-	// find the spawned workers by role if names changed: goroutines started by CircularLigate
-	if rl == nil || gc == nil {
-		c.missing("CHANLIFE", "ligation workers", "functions recurseLigate/getConstructs started by CircularLigate")
+	// the workers by role: goroutines started by CircularLigate; the recursive one is the ligation worker
+	var rl, gc *ssa.Function
+	eachInstr(cl, func(i ssa.Instruction) {
+		if g, ok := i.(*ssa.Go); ok {
+			if f := callee(g); f != nil && inModule(f) {
+				if len(goSites(f, f)) > 0 {
+					rl = f
+				} else {
+					gc = f
+				}
+			}
+		}
+	})
+	if rl == nil || gc == nil || len(rl.Params) != 4 || len(gc.Params) != 2 {
+		c.missingHelper("CHANLIFE", "ligation workers", "a recursive worker (wg, chan, seed, pool) and a collector (in, out) started as goroutines by CircularLigate")
 		return
 	}
 	for _, f := range []*ssa.Function{rl, gc, cl, gg} {
 		c.useFn(f)
 	}
-	ctb := newTB(cl)
-	// ---- CircularLigate
-	workerGos := goSites(cl, rl)
-	collGos := goSites(cl, gc)
-	if len(workerGos) == 0 || len(collGos) != 1 {
-		c.bad("CHANLIFE", "CircularLigate:spawns", cl.Pos(), fmt.Sprintf("%d worker spawn sites, %d collector spawn sites (want >=1 and 1)", len(workerGos), len(collGos)))
-		return
-	}
-	addBeforeGo(c, "CHANLIFE", cl, rl, 0)
-	wg := unwrap(workerGos[0].Call.Args[0])
-	ch := unwrap(workerGos[0].Call.Args[1])
-	res := unwrap(collGos[0].Call.Args[1])
-	okWire := unwrap(collGos[0].Call.Args[0]) == ch
-	for _, g := range workerGos {
-		if unwrap(g.Call.Args[0]) != wg || unwrap(g.Call.Args[1]) != ch {
-			okWire = false
-		}
-	}
-	_, chMake := ch.(*ssa.MakeChan)
-	_, resMake := res.(*ssa.MakeChan)
-	c.check(okWire && chMake && resMake, "CHANLIFE", "CircularLigate:one WaitGroup, one construct channel shared by workers and collector", cl.Pos(), "all workers get the same wg and channel; the collector reads that channel", "workers and collector are not wired to one WaitGroup / one construct channel created here")
-	var wait, cls, recv ssa.Instruction
-	eachInstr(cl, func(i ssa.Instruction) {
-		switch x := i.(type) {
-		case *ssa.Call:
-			if calleeName(x) == "(*sync.WaitGroup).Wait" && unwrap(x.Call.Args[0]) == wg {
-				wait = x
-			}
-			if isCloseOf(x, ch) {
-				cls = x
-			}
-		case *ssa.UnOp:
-			if x.Op.String() == "<-" && x.X == res {
-				recv = x
-			}
-		}
-	})
-	okOrder := wait != nil && cls != nil && recv != nil && domInstr(collGos[0], wait) && domInstr(wait, cls) && domInstr(cls, recv)
-	for _, g := range workerGos {
-		if wait == nil || !(g.Block().Dominates(wait.Block()) || reaches(g.Block(), wait.Block())) {
-			okOrder = false
-		}
-		if wait != nil && (reaches(wait.Block(), g.Block())) {
-			okOrder = false
-		}
-	}
-	c.check(okOrder, "CHANLIFE", "CircularLigate:go collector < wg.Wait < close(c) < receive result", cl.Pos(), "the collector runs before Wait (unbuffered sends can complete), the channel is closed only after all workers are done, the result is read after the close", "the ordering collector-start / Wait / close / receive is broken: workers may block forever, send on a closed channel, or constructs may be lost")
-	checkCloseOnce(c, "CHANLIFE", cl, ch, "constructs")
-	rt, _, okR := singleReturnTerm(cl, 0)
-	c.check(okR && recv != nil && rt.V == recv.(ssa.Value), "CHANLIFE", "CircularLigate returns the collector's result", cl.Pos(), "the returned slice is what the collector sent", "CircularLigate does not return the list received from the collector")
-	_ = ctb
-
-	// ---- recurseLigate
-	rtb := newTB(rl)
-	// defer wg.Done() first
-	firstDefer := false
-	for _, ins := range rl.Blocks[0].Instrs {
-		if d, ok := ins.(*ssa.Defer); ok {
-			firstDefer = calleeName(d) == "(*sync.WaitGroup).Done" && unwrap(d.Call.Args[0]) == ssa.Value(rl.Params[0])
-			break
-		}
-		if _, ok := ins.(ssa.CallInstruction); ok {
-			break
-		}
-	}
-	c.check(firstDefer, "CHANLIFE", "recurseLigate: defer wg.Done() first", rl.Pos(), "Done is deferred before any other call", "recurseLigate does not defer wg.Done() as its first action: a panic or early return leaves Wait blocked")
-	addBeforeGo(c, "CHANLIFE", rl, rl, 0)
-	recGos := goSites(rl, rl)
-	okPass := true
-	for _, g := range recGos {
-		if unwrap(g.Call.Args[0]) != ssa.Value(rl.Params[0]) || unwrap(g.Call.Args[1]) != ssa.Value(rl.Params[1]) {
-			okPass = false
-		}
-	}
-	c.check(okPass, "CHANLIFE", "recurseLigate: spawns pass the same wg and channel", rl.Pos(), "recursive workers share the caller's WaitGroup and channel", "a recursive spawn uses a different WaitGroup or channel")
-	nb := 0
-	eachInstr(rl, func(i ssa.Instruction) {
-		if s, ok := i.(*ssa.Select); ok {
-			nb += len(s.States)
-		}
-	})
-	sends := sendsOn(rl, rl.Params[1])
-	c.check(nb == 0 && len(sends) >= 1 && len(chanEscapes(rl, rl.Params[1], map[string]bool{"poly/clone.recurseLigate": true})) == 0, "CHANLIFE", "recurseLigate: plain blocking sends only", rl.Pos(), fmt.Sprintf("%d blocking send site(s), no select", len(sends)), "constructs are sent through select or the channel escapes: results may be dropped")
-	// TERM-LIGATE
-	seed := "param[2]"
-	nw := "each(param[3])"
-	F := func(x, f string) string { return "field[" + f + "](" + x + ")" }
-	RC := func(x string) string { return "call[poly/transform.ReverseComplement](" + x + ")" }
-	closeAtom := "binop[==](" + F(seed, "ForwardOverhang") + ", " + F(seed, "ReverseOverhang") + ")"
-	okClose := len(sends) == 1
-	if okClose {
-		pc := pathCond(rtb, rl.Blocks[0], sends[0].Block())
-		okClose = pc.String() == closeAtom && rtb.T(sends[0].X).String() == "binop[+]("+F(seed, "ForwardOverhang")+", "+F(seed, "Sequence")+")"
-	}
-	c.check(okClose, "TERM-LIGATE", "closure: Fwd==Rev sends Fwd+Seq", rl.Pos(), "a seed whose two overhangs are equal is reported as ForwardOverhang+Sequence, exactly then", "the ring-closure test or the reported construct differs from {seed.Fwd == seed.Rev -> seed.Fwd + seed.Seq}")
-	fwdAtom := "binop[==](" + F(nw, "ForwardOverhang") + ", " + F(seed, "ReverseOverhang") + ")"
-	flipAtom := "binop[==](" + RC(F(nw, "ReverseOverhang")) + ", " + F(seed, "ReverseOverhang") + ")"
-	palAtom := "binop[!=](" + RC(F(seed, "ReverseOverhang")) + ", " + F(seed, "ReverseOverhang") + ")"
-	var okFwd, okFlip bool
-	var whyFwd, whyFlip = "no forward-extension spawn found", "no flipped-extension spawn found"
-	for _, g := range recGos {
-		pc := pathCond(rtb, rl.Blocks[0], g.Block())
-		a, ok := unwrap(g.Call.Args[2]).(*ssa.UnOp)
-		var sd *Term
-		if ok {
-			sd = rtb.T(a)
-		} else {
-			sd = rtb.T(g.Call.Args[2])
-		}
-		sq, fo, ro := partialOf(sd, "Sequence"), partialOf(sd, "ForwardOverhang"), partialOf(sd, "ReverseOverhang")
-		if sq == nil || fo == nil || ro == nil {
-			continue
-		}
-		listOK := unwrap(g.Call.Args[3]) == ssa.Value(rl.Params[3])
-		pre := "binop[+](binop[+](" + F(seed, "Sequence") + ", " + F(seed, "ReverseOverhang") + "), "
-		switch {
-		case sq.String() == pre+F(nw, "Sequence")+")":
-			extra := []string{}
-			for _, at := range pc.atoms() {
-				s := at.Atom.String()
-				if s != fwdAtom && s != closeAtom && !strings.HasPrefix(s, "binop[<](binop[+](const[1], phi") {
-					extra = append(extra, short(s))
-				}
-			}
-			okFwd = pc.implies(fwdAtom, false) && pc.implies(closeAtom, true) && fo.String() == F(seed, "ForwardOverhang") && ro.String() == F(nw, "ReverseOverhang") && listOK && len(extra) == 0
-			whyFwd = fmt.Sprintf("forward extension builds {%s, %s, %s} under %s (extra conditions %v)", short(sq.String()), short(fo.String()), short(ro.String()), short(pc.String()), extra)
-		case sq.String() == pre+RC(F(nw, "Sequence"))+")":
-			extra := []string{}
-			for _, at := range pc.atoms() {
-				s := at.Atom.String()
-				if s != flipAtom && s != palAtom && s != closeAtom && !strings.HasPrefix(s, "binop[<](binop[+](const[1], phi") {
-					extra = append(extra, short(s))
-				}
-			}
-			okFlip = pc.implies(flipAtom, false) && pc.implies(palAtom, false) && fo.String() == F(seed, "ForwardOverhang") && ro.String() == RC(F(nw, "ForwardOverhang")) && listOK && len(extra) == 0
-			whyFlip = fmt.Sprintf("flipped extension builds {%s, %s, %s} under %s (conditions it must not depend on: %v)", short(sq.String()), short(fo.String()), short(ro.String()), short(pc.String()), extra)
-		}
-	}
-	c.check(okFwd, "TERM-LIGATE", "forward extension", rl.Pos(), "under seed.Rev == new.Fwd: {seed.Seq+seed.Rev+new.Seq, seed.Fwd, new.Rev}, same pool", whyFwd)
-	c.check(okFlip, "TERM-LIGATE", "flipped extension (independent of the forward test)", rl.Pos(), "under seed.Rev == RC(new.Rev) && seed.Rev != RC(seed.Rev): {seed.Seq+seed.Rev+RC(new.Seq), seed.Fwd, RC(new.Fwd)}; tested for every fragment whether or not it also fits forward", whyFlip)
-	c.check(len(recGos) == 2, "TERM-LIGATE", "exactly two extension kinds", rl.Pos(), "forward and flipped", fmt.Sprintf("%d recursive spawn sites, want 2", len(recGos)))
-
-	// ---- getConstructs
-	gtb := newTB(gc)
-	in, out := gc.Params[0], gc.Params[1]
-	checkCloseOnceOnPath(c, gc, gtb, in, out)
-	hash := `extract[0](call[poly/seqhash.Hash](extract[0](unop[<-,ok](param[0])), const["DNA"], const[true], const[true]))`
-	var partApp, hashApp *appSite
-	eachInstr(gc, func(i ssa.Instruction) {
-		if cl, ok := i.(*ssa.Call); ok && calleeName(cl) == "builtin:append" {
-			for _, s := range topAppendSites(gtb.T(cl)) {
-				s := s
-				if s.At != ssa.Instruction(cl) {
-					continue
-				}
-				if s.Elem.String() == hash {
-					hashApp = &s
-				} else if partialOf(s.Elem, "Sequence") != nil {
-					partApp = &s
-				}
-			}
-		}
-	})
-	okDedup := partApp != nil && hashApp != nil && partApp.At.Block() == hashApp.At.Block()
-	whyD := "constructs and their hashes are not recorded together"
-	if okDedup {
-		sq, ci := partialOf(partApp.Elem, "Sequence"), partialOf(partApp.Elem, "Circular")
-		okDedup = sq.String() == "extract[0](unop[<-,ok](param[0]))" && ci != nil && ci.isConst("true")
-		whyD = "kept value is not Part{construct, Circular: true}"
-		// kept iff no earlier equal hash: the keep block is reached under !exists where exists = OR over earlier hashes == this hash
-		pc := pathCond(gtb, gc.Blocks[0], partApp.At.Block())
-		var flag *Term
-		for _, a := range pc.atoms() {
-			if a.Neg && a.Atom.Op == "phi" {
-				flag = a.Atom
-			}
-		}
-		eqSeen := false
-		eachInstr(gc, func(i ssa.Instruction) {
-			if ifi, ok := i.(*ssa.If); ok {
-				t := gtb.T(ifi.Cond)
-				if t.isBin("==") && ((t.Args[1].String() == hash && strings.HasPrefix(t.Args[0].String(), "each(collect("+hash)) || (t.Args[0].String() == hash && strings.HasPrefix(t.Args[1].String(), "each(collect("+hash))) {
-					eqSeen = true
-				}
-			}
-		})
-		if flag == nil || !eqSeen {
-			okDedup = false
-			whyD = "a construct is not kept exactly when no earlier recorded hash equals its hash"
-		} else {
-			leaves := phiLeaves(flag)
-			for _, l := range leaves {
-				if !l.isConst("true") && !l.isConst("false") {
-					okDedup = false
-					whyD = "the 'already seen' flag is not a plain true/false marker"
-				}
-			}
-		}
-	}
-	c.check(okDedup, "TERM-DEDUP", "keep iff hash unseen; Part{x, Circular:true}", gc.Pos(), "every received construct is compared with all earlier hashes and kept once", whyD)
-	hashOK := false
-	eachInstr(gc, func(i ssa.Instruction) {
-		if cl, ok := i.(*ssa.Call); ok && calleeName(cl) == "poly/seqhash.Hash" {
-			hashOK = gtb.T(cl).String() == `call[poly/seqhash.Hash](extract[0](unop[<-,ok](param[0])), const["DNA"], const[true], const[true])`
-		}
-	})
-	c.check(hashOK, "TERM-DEDUP", "key = seqhash(x, DNA, circular, double-stranded)", gc.Pos(), "constructs equal up to rotation and strand share a key", "the dedup key is not seqhash.Hash(construct, \"DNA\", true, true): plasmids equal up to rotation or strand are reported twice (or different ones merged)")
+	checkCircularLigate(c, cl, rl, gc)
+	recGos := checkWorkerLifecycle(c, rl)
+	checkLigationTerms(c, rl, recGos)
+	checkCollector(c, gc)
 
 	// ---- NOSHARED
 	checkNoShared(c, "NOSHARED", "goroutine bodies use no package state", []*ssa.Function{rl, gc}, nil)
 	ws := argWriters(rl)
 	c.check(len(ws) == 0, "NOSHARED", "recurseLigate does not write the shared fragment list", rl.Pos(), "no store through its parameters", strings.Join(ws, "; "))
 
-	// ---- WRAPPERS
-	ggtb := newTB(gg)
-	sr := successReturn(ggtb, gg, 1)
-	okGG := false
-	whyGG := "no single success return"
-	if sr != nil {
-		t := ggtb.T(sr.Results[0])
-		cutT := "call[poly/clone.CutWithEnzymeByName](each(param[0]), const[true], param[1])"
-		if t.isCall("poly/clone.CircularLigate") {
-			sites := topAppendSites(t.Args[0])
-			okGG = len(sites) == 1 && sites[0].Elem.String() == "extract[0]("+cutT+")"
-			whyGG = "fragments passed to CircularLigate are " + short(t.Args[0].String())
-			if okGG {
-				pc := pathCond(ggtb, gg.Blocks[0], sites[0].At.Block())
-				if !pc.implies("binop[!=](const[nil:error], extract[1]("+cutT+"))", true) {
-					okGG = false
-					whyGG = "fragments are used although the cut reported an error"
-				}
-			}
-		}
-	}
-	c.check(okGG, "WRAPPERS", "GoldenGate: cut every part directionally, ligate all fragments", gg.Pos(), "CutWithEnzymeByName(part, true, enzyme) for each part in order; all fragments go to CircularLigate", whyGG)
-	okErr := false
-	for _, r := range returnsOf(gg) {
-		if ggtb.T(r.Results[1]).String() == "extract[1](call[poly/clone.CutWithEnzymeByName](each(param[0]), const[true], param[1]))" {
-			okErr = true
-		}
-	}
-	c.check(okErr, "WRAPPERS", "GoldenGate propagates the enzyme lookup error", gg.Pos(), "the error of CutWithEnzymeByName is returned", "the lookup error is swallowed")
+	checkGoldenGate(c, gg)
 
 	// ---- VARIANT
+	rtb := newDeepTB(rl)
 	for _, g := range recGos {
 		pool := unwrap(g.Call.Args[3])
 		measured := false
@@ -335,11 +157,522 @@ func ruleC09(c *Ctx) {
 			}
 		}
 		kind := "forward"
-		if strings.Contains(rtb.T(g.Call.Args[2]).String(), "ReverseComplement") {
+		if sq := partialOf(seedRecord(rtb, g), "Sequence"); sq != nil && strings.Contains(sq.String(), "ReverseComplement") {
 			kind = "flipped"
 		}
 		c.check(measured, "VARIANT", "recursive spawn ("+kind+") carries a decreasing measure", g.Pos(), "strictly smaller pool, bounded depth or consulted visited set", "unmeasured recursive spawn: "+why+"; with a pool whose overhangs close a cycle that excludes the seed (a->b, b->c, c->b) the recursion never terminates")
 	}
+}
+
+func seedRecord(tb *TermBuilder, g *ssa.Go) *Term {
+	if a, ok := unwrap(g.Call.Args[2]).(*ssa.UnOp); ok {
+		return tb.T(a)
+	}
+	return tb.T(g.Call.Args[2])
+}
+
+func checkCircularLigate(c *Ctx, cl, rl, gc *ssa.Function) {
+	ctb := newTB(cl)
+	workerGos := goSites(cl, rl)
+	collGos := goSites(cl, gc)
+	if len(workerGos) == 0 || len(collGos) != 1 {
+		c.undecided("CHANLIFE", "CircularLigate:spawns", cl.Pos(), fmt.Sprintf("%d worker spawn sites, %d collector spawn sites (the model needs >=1 and 1)", len(workerGos), len(collGos)))
+		return
+	}
+	addBeforeGo(c, "CHANLIFE", cl, rl, 0)
+	wg := unwrap(workerGos[0].Call.Args[0])
+	ch := unwrap(workerGos[0].Call.Args[1])
+	res := unwrap(collGos[0].Call.Args[1])
+	okWire := unwrap(collGos[0].Call.Args[0]) == ch
+	for _, g := range workerGos {
+		if unwrap(g.Call.Args[0]) != wg || unwrap(g.Call.Args[1]) != ch {
+			okWire = false
+		}
+	}
+	_, chMake := ch.(*ssa.MakeChan)
+	_, resMake := res.(*ssa.MakeChan)
+	c.checkShape(okWire && chMake && resMake, "CHANLIFE", "CircularLigate:one WaitGroup, one construct channel shared by workers and collector", cl.Pos(), "all workers get the same wg and channel; the collector reads that channel", "workers and collector are not visibly wired to one WaitGroup / one construct channel created here")
+	if !(okWire && chMake && resMake) {
+		return
+	}
+	// every fragment seeds a worker, over the whole pool
+	for _, g := range workerGos {
+		entry := loopBodyEntry(g.Block())
+		st, why := unknown, "the worker spawn is not in a loop"
+		if entry != nil {
+			pc := pathCond(ctb, entry, g.Block())
+			seed := ctb.T(g.Call.Args[2])
+			if u, ok := unwrap(g.Call.Args[2]).(*ssa.UnOp); ok {
+				seed = ctb.T(u)
+			}
+			pool := ctb.T(g.Call.Args[3])
+			switch {
+			case pc.Op != "true" && len(opaqueCond(pc)) == 0:
+				st, why = broken, "a fragment seeds a ligation only under "+short(pc.String())+": rings whose other fragments are alternatives of a skipped seed are never started from them, so constructs go missing depending on input order"
+			case pc.Op != "true":
+				why = "seed spawn conditional on " + short(pc.String())
+			case seed.String() == "each(param[0])" && pool.isParam(0):
+				st = holds
+			default:
+				why = "seed " + short(seed.String()) + ", pool " + short(pool.String())
+			}
+		}
+		c.judge(st, "CHANLIFE", "CircularLigate: every fragment seeds a worker over the whole pool", g.Pos(), "go worker(&wg, c, fragment, fragments) for each fragment, unconditionally", why)
+	}
+	var wait, cls, recv ssa.Instruction
+	eachInstr(cl, func(i ssa.Instruction) {
+		switch x := i.(type) {
+		case *ssa.Call:
+			if calleeName(x) == "(*sync.WaitGroup).Wait" && unwrap(x.Call.Args[0]) == wg {
+				wait = x
+			}
+			if isCloseOf(x, ch) {
+				cls = x
+			}
+		case *ssa.UnOp:
+			if x.Op.String() == "<-" && x.X == res {
+				recv = x
+			}
+		}
+	})
+	st, why := holds, ""
+	switch {
+	case wait == nil:
+		st, why = broken, "CircularLigate never waits for its workers: the construct channel is closed (or the result read) while ligations are still running"
+	case cls == nil:
+		st, why = unknown, "no close of the construct channel in CircularLigate"
+	case recv == nil:
+		st, why = unknown, "no receive of the collector's result in CircularLigate"
+	case domInstr(cls, wait):
+		st, why = broken, "the construct channel is closed before wg.Wait(): a worker still running sends on a closed channel (panic) or its construct is lost"
+	case domInstr(recv, cls):
+		st, why = broken, "the result is received before the construct channel is closed: the collector only reports after the close, so this blocks forever"
+	case domInstr(wait, collGos[0]) && ch.(*ssa.MakeChan).Size.(*ssa.Const) != nil && ctb.T(ch.(*ssa.MakeChan).Size).isConst("0"):
+		st, why = broken, "the collector is started after wg.Wait() on an unbuffered channel: workers block on send and Wait never returns"
+	case !(domInstr(collGos[0], wait) && domInstr(wait, cls) && domInstr(cls, recv)):
+		st, why = unknown, "collector start / Wait / close / receive are not totally ordered by dominance"
+	}
+	if st == holds {
+		for _, g := range workerGos {
+			if reaches(wait.Block(), g.Block()) {
+				st, why = broken, "a worker is spawned after wg.Wait()"
+			}
+		}
+	}
+	c.judge(st, "CHANLIFE", "CircularLigate:go collector < wg.Wait < close(c) < receive result", cl.Pos(), "the collector runs before Wait (unbuffered sends can complete), the channel is closed only after all workers are done, the result is read after the close", why)
+	checkCloseOnce(c, "CHANLIFE", cl, ch, "constructs")
+	okRet := false
+	var rts []string
+	for _, a := range resultAlts(ctb, cl, 0) {
+		okRet = recv != nil && a.T.V == recv.(ssa.Value)
+		rts = append(rts, short(a.T.String()))
+	}
+	c.checkShape(okRet, "CHANLIFE", "CircularLigate returns the collector's result", cl.Pos(), "the returned slice is what the collector sent", "CircularLigate returns "+strings.Join(rts, " | ")+", not visibly the list received from the collector")
+}
+
+func checkWorkerLifecycle(c *Ctx, rl *ssa.Function) []*ssa.Go {
+	// defer wg.Done() first
+	st, why := unknown, ""
+	var done []ssa.CallInstruction
+	eachInstr(rl, func(i ssa.Instruction) {
+		if ci, ok := i.(ssa.CallInstruction); ok && calleeName(ci) == "(*sync.WaitGroup).Done" && unwrap(ci.Common().Args[0]) == ssa.Value(rl.Params[0]) {
+			done = append(done, ci)
+		}
+	})
+	switch {
+	case len(done) == 0:
+		st, why = broken, "the worker never calls wg.Done(): Wait blocks forever"
+	default:
+		for _, ins := range rl.Blocks[0].Instrs {
+			if d, ok := ins.(*ssa.Defer); ok {
+				if len(done) == 1 && ssa.Instruction(d) == done[0].(ssa.Instruction) {
+					st = holds
+				}
+				break
+			}
+			if _, ok := ins.(ssa.CallInstruction); ok {
+				break
+			}
+		}
+		if st != holds {
+			pd := postDominators(rl)
+			covered := false
+			for _, d := range done {
+				if _, isDefer := d.(*ssa.Defer); !isDefer && pd[rl.Blocks[0]][d.Block()] {
+					covered = true
+				}
+				if _, isDefer := d.(*ssa.Defer); isDefer && d.Block() == rl.Blocks[0] {
+					covered = true
+				}
+			}
+			if !covered {
+				st, why = broken, "wg.Done() is not deferred at entry and does not run on every path out of the worker: some path leaves Wait blocked"
+			} else {
+				why = "wg.Done() is called, but not as the first deferred action"
+			}
+		}
+	}
+	c.judge(st, "CHANLIFE", "recurseLigate: defer wg.Done() first", rl.Pos(), "Done is deferred before any other call", why)
+	addBeforeGo(c, "CHANLIFE", rl, rl, 0)
+	recGos := goSites(rl, rl)
+	okPass := true
+	for _, g := range recGos {
+		if unwrap(g.Call.Args[0]) != ssa.Value(rl.Params[0]) || unwrap(g.Call.Args[1]) != ssa.Value(rl.Params[1]) {
+			okPass = false
+		}
+	}
+	c.checkShape(okPass, "CHANLIFE", "recurseLigate: spawns pass the same wg and channel", rl.Pos(), "recursive workers share the caller's WaitGroup and channel", "a recursive spawn does not visibly pass on the caller's WaitGroup and channel")
+	nb := 0
+	eachInstr(rl, func(i ssa.Instruction) {
+		if s, ok := i.(*ssa.Select); ok {
+			for _, stt := range s.States {
+				if stt.Chan == ssa.Value(rl.Params[1]) {
+					nb++
+				}
+			}
+		}
+	})
+	sends := sendsOn(rl, rl.Params[1])
+	esc := chanEscapes(rl, rl.Params[1], map[string]bool{fname(rl): true})
+	switch {
+	case nb > 0:
+		c.bad("CHANLIFE", "recurseLigate: plain blocking sends only", rl.Pos(), "constructs are sent through a select: a construct can be dropped when the collector is busy")
+	case len(sends) >= 1 && len(esc) == 0:
+		c.ok("CHANLIFE", "recurseLigate: plain blocking sends only", rl.Pos(), fmt.Sprintf("%d blocking send site(s), no select", len(sends)))
+	default:
+		c.undecided("CHANLIFE", "recurseLigate: plain blocking sends only", rl.Pos(), fmt.Sprintf("%d send sites; channel %v", len(sends), esc))
+	}
+	return recGos
+}
+
+func checkLigationTerms(c *Ctx, rl *ssa.Function, recGos []*ssa.Go) {
+	rtb := newDeepTB(rl)
+	seed := "param[2]"
+	nw := "each(param[3])"
+	F := func(x, f string) string { return "field[" + f + "](" + x + ")" }
+	RC := func(x string) string { return "call[poly/transform.ReverseComplement](" + x + ")" }
+	vocab := []string{F(seed, "ForwardOverhang"), F(seed, "ReverseOverhang"), F(seed, "Sequence"), F(nw, "ForwardOverhang"), F(nw, "ReverseOverhang"), F(nw, "Sequence"), RC("x")}
+	closeAtom := "binop[==](" + F(seed, "ForwardOverhang") + ", " + F(seed, "ReverseOverhang") + ")"
+	fwdAtom := "binop[==](" + F(nw, "ForwardOverhang") + ", " + F(seed, "ReverseOverhang") + ")"
+	flipAtom := "binop[==](" + RC(F(nw, "ReverseOverhang")) + ", " + F(seed, "ReverseOverhang") + ")"
+	palAtom := "binop[==](" + RC(F(seed, "ReverseOverhang")) + ", " + F(seed, "ReverseOverhang") + ")"
+	sends := sendsOn(rl, rl.Params[1])
+	if len(sends) != 1 {
+		c.undecided("TERM-LIGATE", "closure: Fwd==Rev sends Fwd+Seq", rl.Pos(), fmt.Sprintf("%d send sites, the model needs 1", len(sends)))
+	} else {
+		pc := pathCond(rtb, rl.Blocks[0], sends[0].Block())
+		st, why := holds, ""
+		switch {
+		case pc.implies(closeAtom, true):
+			st, why = broken, "a construct is reported when the seed's overhangs differ (ring-closure test inverted)"
+		case !pc.implies(closeAtom, false):
+			st, why = unknown, "construct reported under "+short(pc.String())
+			if pc.Op == "true" {
+				st, why = broken, "every seed is reported as a construct, closed ring or not"
+			}
+		case len(pc.atoms()) != 1:
+			st, why = unknown, "construct reported under "+short(pc.String())
+		}
+		c.judge(st, "TERM-LIGATE", "closure: reported exactly when Fwd==Rev", sends[0].Pos(), "a seed whose two overhangs are equal is a closed ring", why)
+		c.cmpTerm("TERM-LIGATE", "closure: sends Fwd+Seq", sends[0].Pos(), rtb.T(sends[0].X), "binop[+]("+F(seed, "ForwardOverhang")+", "+F(seed, "Sequence")+")", "the ring is reported as ForwardOverhang+Sequence", "the construct reported for a closed ring", vocab...)
+	}
+	type ext struct {
+		seen bool
+	}
+	var sawFwd, sawFlip bool
+	pre := "binop[+](binop[+](" + F(seed, "Sequence") + ", " + F(seed, "ReverseOverhang") + "), "
+	for _, g := range recGos {
+		pc := pathCond(rtb, rl.Blocks[0], g.Block())
+		sd := seedRecord(rtb, g)
+		sq, fo, ro := partialOf(sd, "Sequence"), partialOf(sd, "ForwardOverhang"), partialOf(sd, "ReverseOverhang")
+		if sq == nil || fo == nil || ro == nil {
+			c.undecided("TERM-LIGATE", "extension", g.Pos(), "the new seed is not a visible Fragment literal: "+short(sd.String()))
+			continue
+		}
+		flipped := strings.Contains(sq.String(), RC(F(nw, "Sequence"))) || strings.Contains(ro.String(), "ReverseComplement")
+		listOK := unwrap(g.Call.Args[3]) == ssa.Value(rl.Params[3])
+		name, wantSq, wantRo, need := "forward extension", pre+F(nw, "Sequence")+")", F(nw, "ReverseOverhang"), fwdAtom
+		okWhy := "under seed.Rev == new.Fwd: {seed.Seq+seed.Rev+new.Seq, seed.Fwd, new.Rev}, same pool"
+		if flipped {
+			name, wantSq, wantRo, need = "flipped extension (independent of the forward test)", pre+RC(F(nw, "Sequence"))+")", RC(F(nw, "ForwardOverhang")), flipAtom
+			okWhy = "under seed.Rev == RC(new.Rev) && seed.Rev != RC(seed.Rev): {seed.Seq+seed.Rev+RC(new.Seq), seed.Fwd, RC(new.Fwd)}; tested for every fragment whether or not it also fits forward"
+			if sawFlip {
+				name += " #2"
+			}
+			sawFlip = true
+		} else {
+			if sawFwd {
+				name += " #2"
+			}
+			sawFwd = true
+		}
+		// the record
+		st, why := holds, ""
+		for _, p := range []struct {
+			got  *Term
+			want string
+			what string
+		}{{sq, wantSq, "Sequence"}, {fo, F(seed, "ForwardOverhang"), "ForwardOverhang"}, {ro, wantRo, "ReverseOverhang"}} {
+			if p.got.String() == p.want {
+				continue
+			}
+			s2 := unknown
+			if len(opaqueParts(p.got, vocabOf(vocab...))) == 0 && localDiff(p.got, p.want) {
+				s2 = broken
+			}
+			if st == holds || s2 == broken {
+				st, why = s2, "the new seed's "+p.what+" is "+short(p.got.String())+"; want "+short(p.want)
+			}
+		}
+		if st == holds && !listOK {
+			st, why = unknown, "the spawn passes a different pool"
+		}
+		// the condition
+		if st == holds {
+			var extra []string
+			hasPal := false
+			for _, at := range pc.atoms() {
+				s := at.Atom.String()
+				switch {
+				case s == need && !at.Neg && !at.Disj:
+				case s == closeAtom && at.Neg:
+				case isIterCond(at.Atom):
+				case flipped && s == palAtom && at.Neg && !at.Disj:
+					hasPal = true
+				case flipped && s == fwdAtom:
+					st, why = broken, "the flipped extension is only tried when the forward test "+map[bool]string{true: "fails", false: "succeeds"}[at.Neg]+": a fragment that fits both ways is ligated one way only"
+				default:
+					extra = append(extra, short(s))
+				}
+			}
+			switch {
+			case st == broken:
+			case pc.implies(need, true):
+				st, why = broken, "the extension is spawned when the overhangs do NOT match (test inverted)"
+			case !pc.implies(need, false):
+				st, why = unknown, "spawned under "+short(pc.String())
+				// a different equality between overhang fields in its place
+				for _, at := range pc.atoms() {
+					if at.Atom.isBin("==") && !at.Neg && !at.Disj && at.Atom.String() != need && len(opaqueParts(at.Atom, vocabOf(vocab...))) == 0 && localDiff(at.Atom, need) {
+						st, why = broken, "the extension is spawned under "+short(at.Atom.String())+"; want "+need
+					}
+				}
+			case len(extra) > 0:
+				st, why = unknown, fmt.Sprintf("additional conditions %v", extra)
+			case flipped && !hasPal:
+				st, why = broken, "the flipped extension is not guarded by seed.Rev != RC(seed.Rev): a seed with a palindromic overhang ligates to flipped copies for ever"
+			}
+		}
+		c.judge(st, "TERM-LIGATE", name, g.Pos(), okWhy, why)
+	}
+	if !sawFwd {
+		c.undecided("TERM-LIGATE", "forward extension", rl.Pos(), "no forward-extension spawn found")
+	}
+	if !sawFlip {
+		c.undecided("TERM-LIGATE", "flipped extension (independent of the forward test)", rl.Pos(), "no flipped-extension spawn found")
+	}
+	c.checkShape(len(recGos) == 2, "TERM-LIGATE", "exactly two extension kinds", rl.Pos(), "forward and flipped", fmt.Sprintf("%d recursive spawn sites", len(recGos)))
+}
+
+func checkCollector(c *Ctx, gc *ssa.Function) {
+	gtb := newDeepTB(gc)
+	in, out := gc.Params[0], gc.Params[1]
+	checkCloseOnceOnPath(c, gc, gtb, in, out)
+	recvT := "extract[0](unop[<-,ok](param[0]))"
+	hash := `extract[0](call[poly/seqhash.Hash](` + recvT + `, const["DNA"], const[true], const[true]))`
+	// the key
+	var hashCalls []*ssa.Call
+	eachInstr(gc, func(i ssa.Instruction) {
+		if cl, ok := i.(*ssa.Call); ok && calleeName(cl) == "poly/seqhash.Hash" {
+			hashCalls = append(hashCalls, cl)
+		}
+	})
+	if len(hashCalls) != 1 {
+		c.undecided("TERM-DEDUP", "key = seqhash(x, DNA, circular, double-stranded)", gc.Pos(), fmt.Sprintf("%d calls of seqhash.Hash in the collector, the model needs 1", len(hashCalls)))
+	} else {
+		c.cmpTerm("TERM-DEDUP", "key = seqhash(x, DNA, circular, double-stranded)", hashCalls[0].Pos(), gtb.T(hashCalls[0]), `call[poly/seqhash.Hash](`+recvT+`, const["DNA"], const[true], const[true])`,
+			"constructs equal up to rotation and strand share a key", "the dedup key (plasmids equal up to rotation or strand are reported twice, or different ones merged, unless it is Hash(construct, \"DNA\", true, true))", `const["RNA"]`, `const["PROTEIN"]`, "const[false]")
+	}
+	// the keep site
+	var partApp *appSite
+	eachInstr(gc, func(i ssa.Instruction) {
+		if cl, ok := i.(*ssa.Call); ok && calleeName(cl) == "builtin:append" {
+			for _, s := range topAppendSites(gtb.T(cl)) {
+				s := s
+				if s.At == ssa.Instruction(cl) && partialOf(s.Elem, "Sequence") != nil {
+					partApp = &s
+				}
+			}
+		}
+	})
+	if partApp == nil {
+		c.undecided("TERM-DEDUP", "keep iff hash unseen; Part{x, Circular:true}", gc.Pos(), "no append of a Part literal found in the collector")
+		return
+	}
+	sq, ci := partialOf(partApp.Elem, "Sequence"), partialOf(partApp.Elem, "Circular")
+	st, why := holds, ""
+	switch {
+	case sq.String() != recvT:
+		st, why = stateOf(false, vocabOf(recvT), sq), "the kept Part's sequence is "+short(sq.String())+", want the received construct"
+	case ci == nil || !ci.isConst("true"):
+		st, why = broken, "constructs are kept as linear Parts (Circular is not true)"
+	}
+	if st == holds {
+		pc := pathCond(gtb, gc.Blocks[0], partApp.At.Block())
+		st, why = unknown, "a construct is kept under "+short(pc.String())
+		for _, a := range pc.atoms() {
+			if a.Disj {
+				continue
+			}
+			switch {
+			case a.Atom.Op == "extract" && a.Atom.Name == "1" && a.Atom.Args[0].Op == "lookup" && a.Atom.Args[0].Name == ",ok":
+				// seen-set: kept iff the hash is not in the map, and then recorded under the hash
+				lk := a.Atom.Args[0]
+				if lk.Args[1].String() != hash || lk.Args[0].Op != "makemap" {
+					why = "membership is tested for " + short(lk.Args[1].String())
+					continue
+				}
+				if !a.Neg {
+					st, why = broken, "a construct is kept when its hash has been seen before (test inverted)"
+					continue
+				}
+				recorded := false
+				eachInstr(gc, func(i ssa.Instruction) {
+					if mu, ok := i.(*ssa.MapUpdate); ok && gtb.T(mu.Map).String() == lk.Args[0].String() && gtb.T(mu.Key).String() == hash {
+						if pathCond(gtb, gc.Blocks[0], mu.Block()).String() == pc.String() {
+							recorded = true
+						}
+					}
+				})
+				if recorded {
+					st = holds
+				} else {
+					why = "the hash of a kept construct is not recorded in the seen-set on the same path"
+				}
+			case a.Atom.Op == "phi" && !a.Atom.Cyc || a.Atom.Op == "phi":
+				// flag scan: flag := false; for each earlier hash { if h == hash { flag = true } }; keep iff !flag
+				flag := a.Atom
+				if !a.Neg {
+					st, why = broken, "a construct is kept when the 'already seen' flag is set (test inverted)"
+					continue
+				}
+				eqSeen := false
+				eachInstr(gc, func(i ssa.Instruction) {
+					if ifi, ok := i.(*ssa.If); ok {
+						t := gtb.T(ifi.Cond)
+						if t.isBin("==") && ((t.Args[1].String() == hash && strings.HasPrefix(t.Args[0].String(), "each(collect("+hash)) || (t.Args[0].String() == hash && strings.HasPrefix(t.Args[1].String(), "each(collect("+hash))) {
+							eqSeen = true
+						}
+					}
+				})
+				if !eqSeen {
+					why = "no comparison of the construct's hash with every recorded hash found"
+					continue
+				}
+				// hashes are recorded with the construct
+				okRec := false
+				eachInstr(gc, func(i ssa.Instruction) {
+					if cl, ok := i.(*ssa.Call); ok && calleeName(cl) == "builtin:append" && cl.Block() == partApp.At.Block() {
+						for _, s := range topAppendSites(gtb.T(cl)) {
+							if s.At == ssa.Instruction(cl) && s.Elem.String() == hash {
+								okRec = true
+							}
+						}
+					}
+				})
+				if !okRec {
+					why = "the hash of a kept construct is not recorded with it"
+					continue
+				}
+				// the flag is reset for each construct: entering the scan loop its value is the constant false
+				ph, _ := flag.V.(*ssa.Phi)
+				resetOK, carried := false, false
+				if ph != nil {
+					seen := map[*ssa.Phi]bool{}
+					var walk func(p *ssa.Phi)
+					walk = func(p *ssa.Phi) {
+						if seen[p] {
+							return
+						}
+						seen[p] = true
+						hdr := p.Block()
+						for k, e := range p.Edges {
+							pred := hdr.Preds[k]
+							fromOutside := !(hdr.Dominates(pred) && reaches(pred, hdr)) || pred == hdr && false
+							switch x := e.(type) {
+							case *ssa.Const:
+								if fromOutside && x.Value != nil && x.Value.ExactString() == "false" && enclosingLoopHeader(hdr) != nil || (x.Value != nil && x.Value.ExactString() == "false" && inLoop(pred)) {
+									resetOK = true
+								}
+							case *ssa.Phi:
+								if fromOutside && isCyclicPhi(x) && inLoop(x.Block()) && !seen[x] {
+									// the value entering the scan is carried over from the previous construct
+									carried = true
+								}
+								walk(x)
+							}
+						}
+					}
+					walk(ph)
+				}
+				switch {
+				case carried:
+					st, why = broken, "the 'already seen' flag is not reset for each construct: once one duplicate has been seen, every later construct is dropped as a duplicate too"
+				case resetOK:
+					st = holds
+				default:
+					why = "the reset of the 'already seen' flag was not recognised"
+				}
+			}
+		}
+	}
+	c.judge(st, "TERM-DEDUP", "keep iff hash unseen; Part{x, Circular:true}", partApp.At.Pos(), "every received construct is compared with all earlier hashes and kept once", why)
+}
+
+func checkGoldenGate(c *Ctx, gg *ssa.Function) {
+	ggtb := newDeepTB(gg, "poly/clone.CircularLigate", "poly/clone.CutWithEnzymeByName")
+	cutT := "call[poly/clone.CutWithEnzymeByName](each(param[0]), const[true], param[1])"
+	var succ []resultAlt
+	for _, a := range resultAlts(ggtb, gg, 0) {
+		if len(a.Ret.Results) == 2 {
+			if e := ggtb.T(a.Ret.Results[1]); e.Op == "const" && strings.HasPrefix(e.Name, "nil:") {
+				succ = append(succ, a)
+			}
+		}
+	}
+	st, why := unknown, fmt.Sprintf("%d success returns", len(succ))
+	pos := gg.Pos()
+	if len(succ) == 1 && succ[0].T.isCall("poly/clone.CircularLigate") {
+		t := succ[0].T
+		sites := topAppendSites(t.Args[0])
+		why = "fragments passed to CircularLigate are " + short(t.Args[0].String())
+		if len(sites) == 1 {
+			pos = sites[0].At.Pos()
+			e := sites[0].Elem
+			switch {
+			case e.String() == "extract[0]("+cutT+")":
+				st = holds
+				pc := pathCond(ggtb, gg.Blocks[0], sites[0].At.Block())
+				errAtom := "binop[==](const[nil:error], extract[1](" + cutT + "))"
+				if !pc.implies(errAtom, false) {
+					st, why = unknown, "fragments are collected under "+short(pc.String())
+					if pc.implies(errAtom, true) {
+						st, why = broken, "fragments are collected only when the cut reported an error"
+					}
+				}
+			case e.Op == "extract" && e.Name == "0" && e.Args[0].isCall("poly/clone.CutWithEnzymeByName") && len(opaqueParts(e, vocabOf(cutT, "const[false]"))) == 0 && localDiff(e.Args[0], cutT):
+				st, why = broken, "parts are cut by "+short(e.Args[0].String())+"; GoldenGate needs "+cutT+" (directional cut of every part, in input order)"
+			}
+		}
+	}
+	c.judge(st, "WRAPPERS", "GoldenGate: cut every part directionally, ligate all fragments", pos, "CutWithEnzymeByName(part, true, enzyme) for each part in order; all fragments go to CircularLigate", why)
+	okErr := false
+	for _, r := range returnsOf(gg) {
+		if len(r.Results) == 2 && ggtb.T(r.Results[1]).String() == "extract[1]("+cutT+")" {
+			okErr = true
+		}
+	}
+	c.checkShape(okErr, "WRAPPERS", "GoldenGate propagates the enzyme lookup error", gg.Pos(), "the error of CutWithEnzymeByName is returned", "no return of the cut's error found")
 }
 
 func types_isInt(v ssa.Value) bool {
